@@ -24,11 +24,11 @@ CHECKS = {
    note="Trusted: rec.rs merged log, the per-clause predicates in c14.rs. Relative timing comes from the scenario parameters and OS scheduling; the outcome orders actually seen are listed in the evidence. 'Invokes are cancelled after onexit' (ordering relative to onexit content) is not part of the statement and not judged.",
    tech="offline checker over merged parent/child histories (per-clause ordering and exactly-once predicates)", ref="DESIGN.md §5 C14"),
  "C15": dict(cat="exploration",
-   text="A parent / invoked child / sibling topology exercises every target form (literal and computed) with every payload shape; each uniquely named event must be received exactly once in the addressed session and queue kind (IRECV vs XRECV at the tracer) with sendid, origin, origintype, invokeid and data as sent, and a reply addressed to _event.origin / origintype must reach the original sender; concurrent creation (16 threads on a barrier, each session invoking four children) checks uniqueness of session ids and generated send / invoke ids.",
+   text="A parent / invoked child / sibling topology exercises every target form (literal and computed) with every payload shape; each uniquely named event must be received exactly once in the addressed session and queue kind (IRECV vs XRECV at the tracer) with sendid, origin, origintype, invokeid and data as sent, and a reply addressed to _event.origin / origintype must reach the original sender; concurrent creation (16 threads on a barrier, each session invoking four children) checks uniqueness of session ids and generated send / invoke ids. A prefix-id scenario places sessions and invokes at ids that are string prefixes of one another (sessions 1 / 10 / 11, invokes pk / pk1) and routes between invoked children, third sessions and a second parent across them; sends with a failing <param> among valid ones must go out with the others.",
    note="Trusted: rec.rs tracer attribution by thread, the expectation table in c15.rs. Topologies are fixed templates (2 data models), not generated.",
    tech="offline checker over recorded receptions (exactly-once, addressed queue) + id-uniqueness monitor under concurrent creation", ref="DESIGN.md §5 C15"),
  "C16": dict(cat="exploration",
-   text="Generated scenarios of delayed sends and cancels with every send / cancel bracketed by time-stamped marks on one monotonic clock; an interval oracle judges only what the measured intervals decide (not-early, exactly-once, due order, cancel before earliest due time, delivery when never cancelled, termination discard), absence is closed by a later sentinel; undecided pairs are counted, not judged.",
+   text="Generated scenarios of delayed sends and cancels with every send / cancel bracketed by time-stamped marks on one monotonic clock; an interval oracle judges only what the measured intervals decide (not-early, exactly-once, due order, cancel before earliest due time, delivery when never cancelled, termination discard), absence is closed by a later sentinel; undecided pairs are counted, not judged. Delays are spelled in ms, s, minutes, hours and days (decimal fractions, upper / lower case); <cancel> of an id shared by two pending sends must prevent both.",
    note="Trusted: Instant timestamps taken in the mark action, 1 ms timer granularity allowance. No wall-clock deadline is used as a verdict except the 'never delivered' window, which is closed by a processed sentinel.",
    tech="offline checker over time-stamped event log with interval arithmetic", ref="DESIGN.md §5 C16"),
  "C09": dict(cat="exploration",
@@ -36,11 +36,11 @@ CHECKS = {
    note="Trusted: the probe action (receives &GlobalData = the live configuration), the expected field values in c09.rs. Root-level <data> under late binding and the type of done.state events are not judged (not fixed by the statement). ecmascript runs in strict mode.",
    tech="runtime probes inside executable content and guards (assertions on hooked state) + field-by-field event comparison", ref="DESIGN.md §5 C09"),
  "C12": dict(cat="exploration",
-   text="A table of failing platform operations and semantically odd but accepted documents (every attribute that may hold an expression, every malformed / nonexistent target spelling, illegal delays, 16 kinds of invoke that cannot start, odd host events), each in its own process and both content data models; monitors: panic hook attributed to session / timer threads that did not survive, presence of the mandated error event, bounded progress (probe event, cancel), and a healthy witness session of the same executor that must still send and receive.",
+   text="A table of failing platform operations and semantically odd but accepted documents (every attribute that may hold an expression, every malformed / nonexistent target spelling, illegal delays, 16 kinds of invoke that cannot start, odd host events), each in its own process and both content data models; monitors: panic hook attributed to session / timer threads that did not survive, presence of the mandated error event, bounded progress (probe event, cancel), and a healthy witness session of the same executor that must still send and receive. Further classes: delays of extreme size (due date beyond the calendar, beyond i64), several attributes of one <send> naming the same variable, 40 malformed expression texts as value and as guard.",
    note="Trusted: the scenario table's reading of which error event the Recommendation mandates (only presence is required; sending to a terminated session is not judged). 'Never stops responding' is restated as bounded progress after every injected failure.",
    tech="fault-injection workload with runtime monitors (panic hook, witness session, bounded-progress probes)", ref="DESIGN.md §5 C12"),
  "C13": dict(cat="exploration",
-   text="Real sessions under concurrent producers of four kinds (host sender clones, FsmExecutor::send_to_session, sibling sessions, timer threads), with and without seeded jitter at lock acquisitions; an offline checker over the recorded log decides exactly-once, per-sender order and non-overlap of macrosteps using unique event names; the number of distinct interleavings actually produced is measured.",
+   text="Real sessions under concurrent producers of four kinds (host sender clones, FsmExecutor::send_to_session, sibling sessions, timer threads), with and without seeded jitter at lock acquisitions; an offline checker over the recorded log decides exactly-once, per-sender order and non-overlap of macrosteps using unique event names; the number of distinct interleavings actually produced is measured. A fifth producer kind are invoked children of the receiver sending to #_parent (their events must carry the invoke id, all others none).",
    note="Trusted: rec.rs log (one global sequence), the unique-name construction. Only the interleavings the OS scheduler and the jitter produce are covered; HTTP producers are exercised in C20.",
    tech="offline checker over recorded history (exactly-once, per-sender order, non-overlap) under stress + lock-acquisition jitter", ref="DESIGN.md §5 C13"),
  "C17": dict(cat="exploration",
@@ -80,7 +80,7 @@ CHECKS = {
    note="Trusted: monitors.rs::history and refsim.rs. For deep history below parallel states only inclusion of the recorded states is checked model-free; the exact entry set is decided by reference equality.",
    tech="offline trace checker (snapshot at exit vs restore at entry) + reference model", ref="DESIGN.md §5 C06"),
  "C07": dict(cat="exploration",
-   text="Done-event accounting per microstep from the trace (done.state.<parent> once per entered final child; done.state.<parallel> exactly when all regions are final), termination monitor (nothing but onexit content after a top-level final or the cancel event, each active state's onexit once in exit order, final configuration reported), with events still queued at termination; plus reference equality.",
+   text="Done-event accounting per microstep from the trace (done.state.<parent> once per entered final child; done.state.<parallel> exactly when all regions are final), termination monitor (nothing but onexit content after a top-level final or the cancel event, each active state's onexit once in exit order, final configuration reported), with events still queued at termination; plus reference equality. A donedata family (11 kinds of <donedata> incl. a failing param among valid ones, content, failing content; child of a compound state and inside a parallel region; two completions with changed data; two data models) checks the payload of done.state against the evaluation rule.",
    note="Trusted: monitors.rs::done_and_termination, refsim.rs. done.invoke to an invoking parent is covered by C14's scenarios.",
    tech="offline trace checker (counting / ordering predicates) + reference model", ref="DESIGN.md §5 C07"),
  "C08": dict(cat="exploration",
